@@ -4,7 +4,7 @@ id=$1; shift
 T=/tmp/trial/$id
 rm -rf $T; mkdir -p $T
 rsync -a --exclude target --exclude .git /repo/ $T/repo/
-rsync -a --exclude 'harness/target' --exclude .cache --exclude .git --exclude replays /verif/ $T/verif/
+mkdir -p $T/verif && git -C /verif archive HEAD | tar -x -C $T/verif   # committed state only: edits in progress never leak into a trial
 (cd $T/repo && patch -p1 -s < /verif/seeded/$id/patch.diff) || { echo "patch failed"; exit 2; }
 sed -i "s#path = \"/repo\"#path = \"$T/repo\"#" $T/verif/harness/Cargo.toml
 cd $T/verif
